@@ -100,62 +100,3 @@ Definition invocations (o : outcome) : list (N * N) := match o with Done s | Dea
 Definition src_call : option call_mode := call_mode_of changeable_call_mode.
 Definition src_clone : option clone_mode := clone_mode_of changeable_clone_mode.
 
-Lemma source_modes : src_call = Some GetThenCall /\ src_clone = Some Share.
-Proof. split; reflexivity. Qed.
-
-(* ---- theorems for the modes of the source *)
-Notation exec_src := (exec GetThenCall Share).
-Notation exec_op_src := (exec_op GetThenCall Share).
-
-(* nothing is ever locked, so nothing ever deadlocks *)
-Lemma no_lock_op : forall o s, locked s = [] ->
-  match exec_op_src o s with Done s' => locked s' = [] | Deadlock _ => False | BadHandle => True end.
-Proof.
-  fix IH 1. intros o s L. destruct o as [h f|h h'|h body]; cbn [exec_op].
-  - destruct (lookup h (slot_of s)); [|exact I]. rewrite L. cbn [existsb locked]. reflexivity.
-  - destruct (lookup h (slot_of s)); [|exact I]. cbn [locked]. exact L.
-  - destruct (lookup h (slot_of s)) as [sl|]; [|exact I]. destruct (lookup sl (value s)) as [f|]; [|exact I].
-    set (s1 := mkS (slot_of s) (value s) (locked s) ((h, f) :: trace s) (next_slot s)).
-    assert (locked s1 = []) as L1 by exact L.
-    revert L1. generalize s1. clear s1. induction body as [|o' r IHr]; intros st Lst.
-    + cbn [locked]. exact L.
-    + pose proof (IH o' st Lst) as H. destruct (exec_op_src o' st) as [st'| |]; [apply IHr; exact H | exact H | exact I].
-Qed.
-
-Theorem never_deadlocks : forall l s, locked s = [] -> match exec_src l s with Deadlock _ => False | _ => True end.
-Proof.
-  induction l as [|o r IH]; intros s L; cbn [exec]; [exact I|].
-  pose proof (no_lock_op o s L) as H. destruct (exec_op_src o s) as [s'| |]; [apply IH; exact H | exact H | exact I].
-Qed.
-
-(* a call runs the function that was installed when the call started: replacing the handler from within it (even its own slot)
-   does not affect the invocation in progress, and the next call runs the replacement *)
-Theorem replace_from_within : forall h f0 g s sl,
-  lookup h (slot_of s) = Some sl -> lookup sl (value s) = Some f0 -> locked s = [] ->
-  exists s', exec_src [Call h [Replace h g]; Call h []] s = Done s' /\
-             trace s' = (h, g) :: (h, f0) :: trace s.
-Proof.
-  intros h f0 g s sl Hs Hv L. cbn [exec exec_op]. rewrite Hs, Hv. cbn [slot_of value locked]. rewrite Hs, L. cbn [existsb].
-  cbn [slot_of value trace next_slot locked]. rewrite Hs. cbn [update lookup]. rewrite N.eqb_refl. eexists. split; reflexivity.
-Qed.
-
-(* a replacement through one handle is seen by calls through every clone of it, made before or after *)
-Theorem clones_share : forall h h' f0 g s sl,
-  lookup h (slot_of s) = Some sl -> lookup sl (value s) = Some f0 -> locked s = [] -> h' <> h ->
-  exists s', exec_src [Clone h h'; Replace h g; Call h' []] s = Done s' /\ trace s' = (h', g) :: trace s.
-Proof.
-  intros h h' f0 g s sl Hs Hv L Ne. cbn [exec exec_op]. rewrite Hs. cbn [slot_of value locked update lookup].
-  assert (N.eqb h' h = false) as E by (apply N.eqb_neq; exact Ne). rewrite E, Hs, L. cbn [existsb].
-  cbn [slot_of value locked trace next_slot update lookup]. rewrite !N.eqb_refl. eexists. split; reflexivity.
-Qed.
-
-(* ---- the two variants are refuted by witnesses (seeded changes C13-5 and C15-8) *)
-Lemma call_under_lock_refuted :
-  match exec CallUnderLock Share [Call 0 [Replace 0 1]; Call 0 []] init with Deadlock _ => True | _ => False end /\
-  invocations (exec GetThenCall Share [Call 0 [Replace 0 1]; Call 0 []] init) = [(0, 0); (0, 1)].
-Proof. split; vm_compute; [exact I | reflexivity]. Qed.
-
-Lemma snapshot_clone_refuted :
-  invocations (exec GetThenCall Snapshot [Clone 0 7; Replace 0 1; Call 7 []] init) = [(7, 0)] /\
-  invocations (exec GetThenCall Share [Clone 0 7; Replace 0 1; Call 7 []] init) = [(7, 1)].
-Proof. split; vm_compute; reflexivity. Qed.
